@@ -769,7 +769,11 @@ func c17r7(c *Ctx) {
 		return
 	}
 	t := c17ComputeTaint(funcs, c17ProbeMethods(p))
-	sites, closureStores, freshHolders := 0, 0, 0
+	// positive control counters. benignStores: stores that the matcher sees and classifies as not
+	// aliasing the object although the storing code handles the object or writes for a function that
+	// does — a closure (captured named results), or a function that itself holds an alias of the
+	// object (its named results / locals, also when a deferred method writes them through pointers).
+	sites, benignStores, freshHolders := 0, 0, 0
 	for _, f := range funcs {
 		hasA := false
 		for _, prm := range f.Params {
@@ -790,10 +794,8 @@ func c17r7(c *Ctx) {
 					continue
 				}
 				sites++
-				if f.Parent() != nil {
-					if _, isStore := in.(*ssa.Store); isStore {
-						closureStores++
-					}
+				if _, isStore := in.(*ssa.Store); isStore && !viol && (f.Parent() != nil || hasA) {
+					benignStores++
 				}
 				if mu, ok := in.(*ssa.MapUpdate); ok && t.C[mu.Map] {
 					freshHolders++
@@ -814,10 +816,10 @@ func c17r7(c *Ctx) {
 			o.Fail("the probed object (or a map/slice inside it — toUnstructured returns the object's own content for unstructured input) is modified: %s", strings.Join(bad, "; "))
 		}
 	}
-	o := c.Ob(nil, "write-sites-examined", nil, "positive control: the matcher sees the stores to the named results in the deferred closures and the map that is built around obj.Object for CEL, and classifies them as not aliasing the object")
-	if closureStores == 0 || freshHolders == 0 {
-		o.Fail("matcher saw %d write sites, %d stores in closures, %d updates of fresh maps holding object data: the known benign writes were not found", sites, closureStores, freshHolders)
+	o := c.Ob(nil, "write-sites-examined", nil, "positive control: the matcher sees the stores to results and locals in the code that handles the probed object (and in its closures) and the map that is built around obj.Object for CEL, and classifies them as not aliasing the object")
+	if benignStores == 0 || freshHolders == 0 {
+		o.Fail("matcher saw %d write sites, %d stores to non-object memory in object-handling functions and closures, %d updates of fresh maps holding object data: the known benign writes were not found", sites, benignStores, freshHolders)
 	} else {
-		o.OK(fmt.Sprintf("%d write sites examined, %d stores in deferred closures, %d update(s) of fresh maps holding object data", sites, closureStores, freshHolders))
+		o.OK(fmt.Sprintf("%d write sites examined, %d stores to non-object memory in object-handling functions and closures, %d update(s) of fresh maps holding object data", sites, benignStores, freshHolders))
 	}
 }
